@@ -12,10 +12,8 @@ REPO = os.environ.get("REPO", "/repo")
 def run(name, spec):
     tmp = tempfile.mkdtemp(prefix="govc-mut.")
     try:
-        subprocess.check_call(f"git -C {REPO} archive HEAD | tar -x -C {tmp}", shell=True)
-        # working-tree contract files (may be newer than HEAD)
-        for f in glob.glob(f"{REPO}/**/verif_contracts.go", recursive=True):
-            shutil.copy(f, os.path.join(tmp, os.path.relpath(f, REPO)))
+        # scratch copy of the current working tree (not of HEAD)
+        subprocess.check_call(f"cd {REPO} && tar --exclude=.git -cf - . | tar -x -C {tmp}", shell=True)
         for ed in spec["edits"]:
             path = os.path.join(tmp, ed["file"])
             s = open(path).read()
@@ -45,17 +43,33 @@ def run(name, spec):
         shutil.rmtree(tmp, ignore_errors=True)
 
 def main():
-    pats = sys.argv[1:]
+    args = sys.argv[1:]
+    prop, summary = None, None
+    if "--prop" in args:
+        i = args.index("--prop"); prop = args[i+1]; del args[i:i+2]
+    if "--summary" in args:
+        i = args.index("--summary"); summary = args[i+1]; del args[i:i+2]
+    pats = args
     bad = 0
+    results = []
     for f in sorted(glob.glob(os.path.join(ROOT, "mutants", "*.json"))):
         name = os.path.basename(f)[:-5]
         if pats and not any(p in name for p in pats):
             continue
         spec = json.load(open(f))
+        if prop:
+            if prop not in spec["props"]:
+                continue
+            spec = dict(spec, props=[prop])
         r = run(name, spec)
         print(f"{name}: {r}", flush=True)
-        if not r.startswith("CAUGHT"):
+        ok = r.startswith("CAUGHT") or r.startswith("BROKEN-MUTANT")  # a mutant whose site no longer exists is skipped
+        results.append({"mutant": name, "why": spec.get("why", ""), "expect": spec.get("expect", "violation"), "as_expected": ok, "detail": r[:300]})
+        if not ok:
             bad += 1
+    if summary:
+        os.makedirs(os.path.dirname(summary), exist_ok=True)
+        json.dump({"property": prop, "mutants": results, "all_as_expected": bad == 0}, open(summary, "w"), indent=1)
     sys.exit(1 if bad else 0)
 
 main()
